@@ -193,7 +193,58 @@ def run_c10(ctx):
     ctx.pmap(drivers.drv_errors, _stamp(cases, "drv_errors"))
     ctx.validate()
 
+# ------------------------------------------------------------------------------------------- C16 / C17
+SERIAL_CLASSES = ALLC + ["ccAny", "ccXor"]
+def serial_cases(ctx, inv):
+    q = ctx.tier == "quick"
+    cases = []
+    # every class of the JSON class map, two applications, explicit and generated ids, an integer leaf
+    u = universe(ctx.tier, SERIAL_CLASSES, leaves=[LEAF("a"), LEAF("b"), LEAF("t", -1, 2)], values=[0, 1, 2] if q else [-1, 0, 1, 2], signs=(0, 1) if q else (0, 1, -1),
+                 ids=("gen", "exp"), comp=2, kids=2 if q else 3)
+    r = ctx.model_check("PuanBuild", u, invariants=inv, dump=True, name="Build_serial")
+    cases += spec_cases(ctx, r)
+    # configurators: a StingyConfigurator over (defaulted) Any/Xor rules
+    u2 = universe(ctx.tier, ["ccAny", "ccXor", "Cfg"] if q else ["ccAny", "ccXor", "Imply", "Cfg"], leaves=[LEAF("a"), LEAF("b"), LEAF("c")], values=[1], signs=(0,),
+                  ids=("gen", "exp"), comp=2 if q else 3, kids=3 if q else 2)
+    r2 = ctx.model_check("PuanBuild", u2, invariants=inv, dump=True, name="Build_serial_cfg")
+    cs = [c for c in spec_cases(ctx, r2) if c["recipe"]["c"] == "Cfg"]
+    cases += cs
+    g = gen.Gen(ctx.rng, classes=SERIAL_CLASSES, max_box=64)
+    n = 0
+    while n < (200 if q else 2500):
+        rr = g.recipe()
+        if n % 3 == 0:       # wrap every third one into a configurator with an explicit or generated id
+            rules = [rr] + [g.recipe() for _ in range(ctx.rng.randint(0, 2))]
+            ids = set(); ok = True
+            rr = {"c": "Cfg", "a": rules, "id": "cfg" if n % 2 else "", "v": 0, "s": 0, "d": ""}
+        for f in gen.features(rr): ctx.region(f)
+        cases.append({"recipe": rr, "src": "random", "leaf_str": bool(n % 2)})
+        n += 1
+    return cases
+
+def run_c16(ctx):
+    cases = serial_cases(ctx, ["C16"])
+    # regression witnesses of the fixed findings D5, D6 and the generated-id emission of defaulted Any/Xor
+    a, b = LEAF("a"), LEAF("b")
+    cases += [{"recipe": x, "src": "handmade"} for x in [
+        _R("AtLeast", b, LEAF("u", 0, 4), id="N1", v=0, s=1),
+        _R("XNor", _R("Any", a, b)), _R("XNor", _R("Any", a, b), _R("All", LEAF("c"), LEAF("d")), _R("Any", LEAF("e"), LEAF("f"))),
+        _R("XNor", _R("Any", a, b), LEAF("c"), LEAF("d")),
+        dict(_R("Cfg", dict(_R("ccAny", a, b, LEAF("c")), d="a"), dict(_R("ccXor", LEAF("x"), LEAF("y")), d="x"), id="cfg")),
+        dict(_R("Cfg", dict(_R("ccAny", LEAF("s", 0, 3), b, LEAF("c")), d="s"), id="cfg")),
+    ]]
+    ctx.pmap(drivers.drv_json, _stamp(cases, "drv_json"))
+    ctx.validate()
+
+def run_c17(ctx):
+    cases = serial_cases(ctx, ["C17"])
+    ctx.pmap(drivers.drv_b64, _stamp(cases, "drv_b64"))
+    ctx.validate()
+
 PROPS = {
+    "C16": {"run": run_c16, "clauses": {"back_is_model", "leaves_same", "points_complete", "equiv", "equiv_struct", "ids_explicit",
+                                        "ids_generated_absent", "defaults_same", "dp_same", "poly_same", "no_exception"}},
+    "C17": {"run": run_c17, "clauses": {"struct_same", "text_same", "queries_same", "poly_struct_same", "poly_again_same", "select_same", "no_exception"}},
     "C10": {"run": run_c10, "clauses": {"accepted_welldef", "tree_accepted", "shared_accepted", "no_exception"}},
     "C01": {"run": run_c01, "clauses": {"points_complete", "cols_are_ids", "ev_total", "iff_top", "inactive_feasible", "no_exception"}},
     "C02": {"run": run_c02, "clauses": {"points_complete", "cols_are_ids", "cols_bounds", "complete", "sound_if_safe", "safe_built", "no_exception"}},
